@@ -34,6 +34,8 @@
 #include "inc/GlyphFace.h"
 #include "inc/FileFace.h"
 #include "inc/Sparse.h"
+#include "inc/Silf.h"
+#include "inc/Error.h"
 #include <unistd.h>
 #undef private
 #undef protected
@@ -366,6 +368,24 @@ static void run_sfnt(const std::vector<std::string> &f) {
     printf("%s\n", out.c_str());
 }
 
+// ------------------------------------------------------------------ Silf::readClassMap (Model/ClassMapModel.v)
+//   <id> classmap <silf version hex> <bytes hex>   ->  <id> CM <REJ | OK nclass nlinear max_off offs-hash data-hash>
+static void run_classmap(const std::vector<std::string> &f) {
+    using namespace graphite2;
+    std::vector<uint8_t> b; if (f[3] != "-") for (size_t i = 0; i + 1 < f[3].size(); i += 2) b.push_back((uint8_t)strtoul(f[3].substr(i, 2).c_str(), 0, 16));
+    uint8_t *p = (uint8_t *)malloc(b.size() ? b.size() : 1); if (!b.empty()) memcpy(p, b.data(), b.size());      // exact-size copy: ASan sees any read outside
+    Silf s; Error e;
+    size_t r = s.readClassMap(p, b.size(), (uint32)strtoul(f[2].c_str(), 0, 16), e);
+    if (r == 0xFFFFFFFFu || e) printf("%s CM REJ\n", f[0].c_str());
+    else {
+        unsigned long h1 = 1469598103UL, h2 = 1469598103UL;
+        for (unsigned i = 0; i <= s.m_nClass; i++) h1 = ((h1 ^ s.m_classOffsets[i]) * 16777619UL) & 0xFFFFFFFFUL;
+        for (size_t i = 0; i < r; i++) h2 = ((h2 ^ s.m_classData[i]) * 16777619UL) & 0xFFFFFFFFUL;
+        printf("%s CM OK %u %u %zu %lu %lu\n", f[0].c_str(), (unsigned)s.m_nClass, (unsigned)s.m_nLinear, r, h1, h2);
+    }
+    free(p);
+}
+
 // ------------------------------------------------------------------ graphite2::sparse (Model/SparseModel.v)
 //   <id> sparse <k:v,k:v,...|-> <key,key,...>     ->  <id> SP <ok|null> cap=<n> <value;value;...>
 static void run_sparse(const std::vector<std::string> &f) {
@@ -400,6 +420,7 @@ int main(int argc, char **argv) {
         else if (f.size() >= 4 && f[1] == "table") run_table(f);
         else if (f.size() >= 4 && f[1] == "sfnt") run_sfnt(f);
         else if (f.size() >= 4 && f[1] == "sparse") run_sparse(f);
+        else if (f.size() >= 4 && f[1] == "classmap") run_classmap(f);
         else printf("%s BAD\n", f.empty() ? "?" : f[0].c_str());
         fflush(stdout); case_end();
     }
